@@ -41,8 +41,8 @@ class GDecl:
 
     @property
     def api_id(self) -> str:
-        mod = self.module.replace(".", "/") + ("/__init__" if self.in_init else "")
-        return "/".join([mod, *self.chain, self.name])
+        # the id of a package's __init__ module is the package path itself
+        return "/".join([self.module.replace(".", "/"), *self.chain, self.name])
 
     @property
     def stub_kind(self) -> str:
@@ -272,7 +272,7 @@ def build(spec: TreeSpec) -> TreeSpec | None:
         decls.append(g)
     spec.files = files
     spec.decls = decls
-    spec.modules = [root + ".__init__", mod_dotted] + ([f"{root}.{sub}.__init__"] if spec.depth == 2 else [])
+    spec.modules = [root, mod_dotted] + ([f"{root}.{sub}"] if spec.depth == 2 else [])
     return spec
 
 
